@@ -44,6 +44,36 @@ def eq_consts(t, subject_pred):
     return out
 
 
+def _rechecks_entry(tree, nm):
+    """a test of one scalar entry nm[a, b] against something other than the literal 0 (the "is it still unknown" test)"""
+    for n in ast.walk(tree):
+        if isinstance(n, ast.Compare) and len(n.comparators) == 1:
+            for a, b in ((n.left, n.comparators[0]), (n.comparators[0], n.left)):
+                if isinstance(a, ast.Subscript) and isinstance(a.value, ast.Name) and a.value.id == nm and isinstance(a.slice, ast.Tuple) and len(a.slice.elts) == 2 \
+                        and not any(isinstance(e, ast.Slice) for e in a.slice.elts) and not (isinstance(b, ast.Constant) and b.value == 0):
+                    return True
+    return False
+
+
+def stale_work_list(rep, f, loops):
+    """a work list of the unknown edges computed once from the label matrix as it was *before* the loop that changes it: edges that get their
+    label on the way are processed again (and edges into a settled node relabelled) - whatever the rest of the loop looks like"""
+    for lid_, li_x in loops:
+        if li_x["test"] is not None or li_x.get("iter") is None:
+            continue
+        for nm_, initv in li_x["init"].items():
+            if isinstance(initv, tuple) and initv and initv[0] == "binop" and any(
+                    isinstance(x, tuple) and len(x) == 4 and x[0] == "cmp" and x[1] == "==" and x[2] == initv and is_const(x[3]) for x in walk(li_x["iter"])):
+                if _rechecks_entry(f.node, nm_) or _rechecks_entry(li_x["node"], nm_):
+                    # `if labelled[x, y] != UNK: continue` inside the loop is Chickering's own formulation (all edges in order, skip the labelled ones)
+                    rep.unk("STEP.shape", fwhere(f, li_x["node"]), "the unknown edges are listed once and each is tested again inside the loop; this formulation of the labelling loop is not read")
+                    return True
+                rep.bad("STEP.select", fwhere(f, li_x["node"]), "the loop runs over the edges that were unknown in `%s` *before* the loop (%s is computed once): an edge labelled in an "
+                        "earlier round is processed again with an earlier parent, and every edge into its head may be relabelled compelled" % (nm_, fmt(li_x["iter"])[:60]))
+                return True
+    return False
+
+
 def label_rules(rep, prog):
     q = U + "label_edges"
     f = need(prog, q)
@@ -52,6 +82,8 @@ def label_rules(rep, prog):
     loops = sorted([(k, v) for k, v in S.loopinfo.items() if v["func"] == q], key=lambda kv: kv[0][1])
     main = [kv for kv in loops if kv[1]["test"] is not None]
     if len(main) != 1:
+        if stale_work_list(rep, f, loops):
+            return None
         raise Inconclusive("label_edges: expected one `while unknown edges remain` loop", f.node)
     lid, li = main[0]
     names = [k for k in li["init"] if li["init"][k][0] == "binop"]
@@ -91,6 +123,8 @@ def step_rules(rep, prog, marker, com, rev):
     outer = [kv for kv in loops if kv[1]["test"] is not None]
     inner = [kv for kv in loops if kv[1]["test"] is None]
     if len(outer) != 1 or len(inner) != 1:
+        if stale_work_list(rep, f, loops):
+            return
         rep.unk("STEP.shape", fwhere(f), "label_edges is no longer `while unknown: ... for w in compelled-into-x: ...`; the step rules do not read this idiom")
         return
     (lo, lout), (li_, lin) = outer[0], inner[0]
@@ -589,7 +623,11 @@ def extension_rules(rep, prog):
 
 def cpdag_core(rep, prog):
     """the construction dag_to_cpdag = assemble(label_edges(order_edges(G))), role by role - what mec / imec / dag_to_icpdag rest on"""
-    marker, written, fl = label_rules(rep, prog)
+    res = label_rules(rep, prog)
+    if res is None:                # the labelling loop is decided wrong as a whole; the rules on its parts have nothing to read
+        order_rules(rep, prog)
+        return
+    marker, written, fl = res
     com, rev = assemble_rules(rep, prog, marker, written, fl)
     if com is not None and marker is not None:
         step_rules(rep, prog, marker, com, rev)
